@@ -1,7 +1,8 @@
 // C05 harness: the real plz binary on generated repositories with injected failures — commands that exit 1,
 // dependencies on labels that do not exist, BUILD files with syntax errors, missing packages, dependency
 // cycles through 1..n targets — with and without --keep_going, at -n 1,2,4,16, each run under a 60 s wall-clock
-// limit.  Direct oracle on the real run: it terminates; its exit status is non-zero exactly when a requested
+// limit; a command failure together with a cycle elsewhere in the requested set; packages that subinclude a target that
+// fails, whose dependency fails, that has already failed when the package is parsed, or that builds.  Direct oracle on the real run: it terminates; its exit status is non-zero exactly when a requested
 // target or one of its (transitive) dependencies cannot be built; no command ran whose dependency had failed; with
 // --keep_going everything that does not depend on a failure is still built.  The Lean driver replays the action
 // log through the scheduler model and computes the expected exit status from the case on its own.
@@ -80,7 +81,79 @@ func broken(c *sched.Case) map[int]bool {
 			out[i] = true
 		}
 	}
+	// a package that subincludes a target that cannot be built does not parse: none of its targets exists
+	var bad func(i int, seen map[int]bool) bool
+	bad = func(i int, seen map[int]bool) bool {
+		if out[i] {
+			return true
+		}
+		if seen[i] {
+			return false
+		}
+		seen[i] = true
+		for _, d := range c.EffDeps(i) {
+			if bad(d, seen) {
+				return true
+			}
+		}
+		return false
+	}
+	subBroken := map[int]bool{}
+	for _, s := range c.Subs {
+		if bad(s[1], map[int]bool{}) {
+			subBroken[s[0]] = true
+		}
+	}
+	for i, t := range c.Targets {
+		if subBroken[t.Pkg] {
+			out[i] = true
+		}
+	}
 	return out
+}
+
+// hangClass names a run that did not terminate after the shape of the case (the three shapes that used to hang).
+func hangClass(c *sched.Case, br map[int]bool) string {
+	if c.KeepGoing {
+		exit, late := false, false
+		for _, t := range c.Targets {
+			exit = exit || t.Fail == "exit"
+			late = late || len(t.PostAdd) > 0
+		}
+		for _, s := range c.Subs {
+			if subTainted(c, s[1], br) {
+				if late {
+					return "did-not-terminate-subinclude-of-already-failed-target"
+				}
+				return "did-not-terminate-failing-subinclude"
+			}
+		}
+		if exit && len(onCycle(c)) > 0 {
+			return "did-not-terminate-failure-and-cycle"
+		}
+	}
+	return "did-not-terminate"
+}
+
+func subTainted(c *sched.Case, u int, br map[int]bool) bool {
+	seen := map[int]bool{}
+	var walk func(i int) bool
+	walk = func(i int) bool {
+		if br[i] {
+			return true
+		}
+		if seen[i] {
+			return false
+		}
+		seen[i] = true
+		for _, d := range c.EffDeps(i) {
+			if walk(d) {
+				return true
+			}
+		}
+		return false
+	}
+	return walk(u)
 }
 
 func judge(c *sched.Case, ev []sched.Event, rc int, wall time.Duration, reported []int, line string) *outcome {
@@ -99,7 +172,7 @@ func judge(c *sched.Case, ev []sched.Event, rc int, wall time.Duration, reported
 		}
 	}
 	if rc == 124 {
-		fail("did-not-terminate", fmt.Sprintf("plz was killed at the %v wall-clock limit", wallLimit))
+		fail(hangClass(c, br), fmt.Sprintf("plz was killed at the %v wall-clock limit", wallLimit))
 	} else {
 		if expectFail && rc == 0 {
 			fail("exit-zero-despite-failure", "a requested target (or a dependency) cannot be built, exit status 0")
@@ -243,7 +316,8 @@ func lastLines(s string, n int) string {
 }
 
 // envSensitive: outcomes that a starved machine can produce on its own (the log-based classes never are).
-var envSensitive = map[string]bool{"did-not-terminate": true, "exit-nonzero-without-failure": true,
+var envSensitive = map[string]bool{"did-not-terminate": true, "did-not-terminate-failure-and-cycle": true,
+	"did-not-terminate-failing-subinclude": true, "did-not-terminate-subinclude-of-already-failed-target": true, "exit-nonzero-without-failure": true,
 	"needed-target-not-built": true, "keep-going-skipped-buildable-target": true}
 
 // suspicious: every failure of the outcome is environment-sensitive.
@@ -359,9 +433,118 @@ func slowFirst(rng *lib.Rng, r *lib.Run, warm bool) *sched.Case {
 	return c
 }
 
+// failAndCycle: a command failure and, elsewhere in the requested set, a dependency cycle. With --keep_going the
+// failure does not stop the build: only the idle-time cycle check can end it, and forwardResults arms that check only
+// while its set of active targets is empty.
+func failAndCycle(rng *lib.Rng, r *lib.Run) *sched.Case {
+	c := &sched.Case{KeepGoing: !rng.Chance(20), Par: []int{1, 2, 4, 16}[rng.Intn(4)]}
+	// 0 fails (possibly after a moment); optionally 1 depends on it; then a cycle through k targets
+	c.Targets = []sched.Target{{Fail: "exit", SleepMs: rng.Intn(300)}}
+	root := 0
+	if rng.Bool() {
+		c.Targets = append(c.Targets, sched.Target{Deps: []int{0}})
+		root = 1
+	}
+	base := len(c.Targets)
+	k := 2 + rng.Intn(3)
+	for i := 0; i < k; i++ {
+		c.Targets = append(c.Targets, sched.Target{Deps: []int{base + (i+1)%k}})
+	}
+	if rng.Bool() { // an independent target that must still be built
+		c.Targets = append(c.Targets, sched.Target{SleepMs: rng.Intn(50)})
+		c.Roots = append(c.Roots, len(c.Targets)-1)
+	}
+	c.Roots = append(c.Roots, root, base+rng.Intn(k))
+	if rng.Bool() {
+		c.Roots[len(c.Roots)-1], c.Roots[len(c.Roots)-2] = c.Roots[len(c.Roots)-2], c.Roots[len(c.Roots)-1]
+	}
+	pkgs := 1 + rng.Intn(2)
+	for i := range c.Targets {
+		c.Targets[i].Pkg = rng.Intn(pkgs)
+	}
+	r.Count("kind:command-failure-and-cycle")
+	if c.KeepGoing {
+		r.Count("keep_going")
+		r.Count("keep_going-with-failure-and-cycle")
+	}
+	return c
+}
+
+// subinclude: package 1 subincludes a target of package 0, which fails / whose dependency fails / which has already
+// failed when package 1 is parsed (its parse is triggered late, by a post-build add_dep) / which builds fine.
+func subinclude(rng *lib.Rng, r *lib.Run, variant string) *sched.Case {
+	c := &sched.Case{KeepGoing: !rng.Chance(20), Par: []int{2, 4, 16}[rng.Intn(3)]}
+	switch variant {
+	case "fail": // //p0:t0 fails; //p1:t1 (+ //p1:t2) requested
+		c.Targets = []sched.Target{{Pkg: 0, Fail: "exit", SleepMs: rng.Intn(400)}, {Pkg: 1}, {Pkg: 1, Deps: []int{1}}}
+		c.Subs = [][2]int{{1, 0}}
+		c.Roots = []int{2}
+		if rng.Bool() { // a second package subincluding the same target
+			c.Targets = append(c.Targets, sched.Target{Pkg: 2})
+			c.Subs = append(c.Subs, [2]int{2, 0})
+			c.Roots = append(c.Roots, 3)
+		}
+	case "depfail": // the subincluded target's dependency fails
+		c.Targets = []sched.Target{{Pkg: 0, Fail: "exit", SleepMs: rng.Intn(200)}, {Pkg: 0, Deps: []int{0}}, {Pkg: 1}}
+		c.Subs = [][2]int{{1, 1}}
+		c.Roots = []int{2}
+	case "late": // 0 fails at once; 1 is slow and then attaches //p2:t3 to 2; package 2 subincludes 0
+		c.Targets = []sched.Target{{Pkg: 0, Fail: "exit"}, {Pkg: 1, SleepMs: 1200 + rng.Intn(600), PostAdd: [][2]int{{2, 3}}},
+			{Pkg: 1, Deps: []int{1}}, {Pkg: 2}}
+		c.Subs = [][2]int{{2, 0}}
+		c.Roots = []int{2, 0}
+	case "ok":
+		c.Targets = []sched.Target{{Pkg: 0, SleepMs: rng.Intn(200)}, {Pkg: 1}, {Pkg: 1, Deps: []int{1}}}
+		c.Subs = [][2]int{{1, 0}}
+		c.Roots = []int{2}
+	}
+	if rng.Bool() { // an independent target that must still be built
+		c.Targets = append(c.Targets, sched.Target{Pkg: 3, SleepMs: rng.Intn(50)})
+		c.Roots = append(c.Roots, len(c.Targets)-1)
+	}
+	r.Count("kind:subinclude-" + variant)
+	if c.KeepGoing {
+		r.Count("keep_going")
+		if variant != "ok" {
+			r.Count("keep_going-with-failing-subinclude")
+		}
+	}
+	return c
+}
+
+// failSlowClean (warm): in the second invocation target 0 fails, and what the first invocation left as its output is a
+// directory of many files, so build.Build spends a while removing it between logging the failure and marking the target
+// Failed; its dependants wait for it the whole time.
+func failSlowClean(rng *lib.Rng, r *lib.Run) *sched.Case {
+	c := &sched.Case{KeepGoing: true, Par: []int{2, 4, 16}[rng.Intn(3)], Warm: true}
+	// the dependants' commands change too, so they would really be run if they were handed to a worker
+	c.Targets = []sched.Target{{Fail: "exit", BigOut: true, SleepMs: rng.Intn(100)}, {Deps: []int{0}, Touch: true}}
+	c.Roots = []int{1}
+	if rng.Bool() {
+		c.Targets = append(c.Targets, sched.Target{Deps: []int{1}, Touch: true})
+		c.Roots = []int{2}
+	}
+	if rng.Bool() {
+		c.Targets = append(c.Targets, sched.Target{Deps: []int{0}, Pkg: 1, Touch: true})
+		c.Roots = append(c.Roots, len(c.Targets)-1)
+	}
+	r.Count("kind:failure-with-slow-output-removal-warm")
+	r.Count("keep_going")
+	return c
+}
+
 func genCase(rng *lib.Rng, r *lib.Run, kind string) *sched.Case {
+	if kind == "failslowclean-warm" {
+		return failSlowClean(rng, r)
+	}
 	if kind == "slowfirst" || kind == "slowfirst-warm" {
 		return slowFirst(rng, r, kind == "slowfirst-warm")
+	}
+	if kind == "exit+cycle" {
+		return failAndCycle(rng, r)
+	}
+	if strings.HasPrefix(kind, "sub-") {
+		return subinclude(rng, r, strings.TrimPrefix(kind, "sub-"))
 	}
 	c := &sched.Case{}
 	n := 2 + rng.Intn(9)
@@ -450,7 +633,8 @@ func main() {
 	if os.Getenv("VERIF_PLZ") == "" {
 		panic("VERIF_PLZ not set")
 	}
-	kinds := []string{"none", "exit", "exit", "slowfirst", "undef", "bad", "miss", "cycle", "badwait", "slowfirst-warm"}
+	kinds := []string{"none", "exit", "exit+cycle", "sub-fail", "slowfirst", "undef", "bad", "sub-late", "miss", "cycle", "exit+cycle", "sub-depfail", "badwait",
+		"slowfirst-warm", "exit", "sub-ok", "failslowclean-warm"}
 	var cases []*sched.Case
 	for i := 0; i < r.N(40, 200); i++ {
 		cases = append(cases, genCase(r.Rng, r, kinds[i%len(kinds)]))
